@@ -219,7 +219,7 @@ pub fn datagrams(fx: &Fixture, tier: Tier) -> Vec<(String, Vec<u8>)> {
         if *kind != "request" {
             let seq_len = (g[0] >> 4) as usize;
             let body = &g[1 + seq_len..];
-            for seq in [0u64, 1, 255, 256, 511, 512, u64::MAX - 256, u64::MAX - 255, u64::MAX - 1, u64::MAX] {
+            for seq in [0u64, 1, 255, 256, 511, 512, 1 << 31, 1 << 32, (1 << 62) + 1, (1 << 63) - 1, 1 << 63, (1 << 63) + 1, (1 << 63) + 2, (1 << 63) + 300, u64::MAX - 256, u64::MAX - 255, u64::MAX - 1, u64::MAX] {
                 for force_len in [0usize, 8] {
                     let bytes = seq.to_le_bytes();
                     let n = if force_len == 8 { 8 } else { (8 - seq.leading_zeros() as usize / 8).max(1) };
